@@ -68,7 +68,7 @@ var pins = []pin{
 		s.CmdArgs = []string{"--sort-rows", "text", "--sort-cols", "text"}
 		s.N, s.Cols, s.Monotone = 20, 65, true
 		v := oneFile("base-csv", "csv", 2)
-		v.CPUCap = 4 // the whole run needs a few CPU-milliseconds
+		v.CPUCap = 3 // the whole run needs a few CPU-milliseconds
 		runSpec(c, cs, s, []*Variant{v}, dir)
 	}},
 	{"bars-stacked-zero-total", func(c *run.Ctx, cs Case, dir string) {
@@ -130,7 +130,17 @@ var pins = []pin{
 		s := baseSpec("bars", mkLines([5]string{"a", "x", "2"}, [5]string{"c", "x", "100"}, [5]string{"d", "x", "100"}, [5]string{"b", "x", "150"}, [5]string{"d", "x", "200"}), fld(1), fld(2), fld(3))
 		s.CmdArgs = []string{"--sort", "text"}
 		s.Monotone = false
-		runSpec(c, cs, s, []*Variant{oneFile("base-snap", "snap", 5), slowFile("v1-slow", 5)}, dir)
+		slow := slowFile("v1-one-early-render", 5)
+		slow.Batch = 3                                      // sample batches: lines 1-3, then lines 4-5
+		slow.Points = "agg.afterSampleBatch=sleep:300ms:n1" // one render between them, none before the last
+		runSpec(c, cs, s, []*Variant{oneFile("base-snap", "snap", 5), slow}, dir)
+	}},
+	{"histo-zero-count-long-key", func(c *run.Ctx, cs Case, dir string) {
+		// WriteForLine answers a key wider than the key column with fullRender(), which skips rows whose value is <= 0
+		s := baseSpec("histo", mkLines([5]string{"short", "x", "5"}, [5]string{"a_key_longer_than_16_chars", "x", "0"}, [5]string{"z", "x", "2"}), fld(1), fld(3))
+		s.N, s.Monotone = 5, true
+		s.CmdArgs = []string{"--sort", "text"}
+		runSpec(c, cs, s, []*Variant{oneFile("base-csv", "csv", 3), oneFile("base-snap", "snap", 3)}, dir)
 	}},
 	// ---- boundary cases that are always run (no defect attached)
 	{"one-parse-error", func(c *run.Ctx, cs Case, dir string) {
@@ -190,11 +200,12 @@ var pins = []pin{
 		}
 	}},
 	{"big-many-keys", func(c *run.Ctx, cs Case, dir string) {
-		// 250 000 lines over 4 000 keys: sampling and the 100 ms render ticker really overlap in time here
-		const n = 250000
+		// 300 000 lines over 60 000 keys, stretched over ~1 s: sampling really overlaps the 100 ms render
+		// ticker here (a render walks and sorts 60 000 keys), which is what the output mutex is for
+		const n = 300000
 		lines := make([]Line, n)
 		for i := range lines {
-			k := (i * 7919) % 4000
+			k := (i * 7919) % 60000
 			l := Line{Kind: 'L'}
 			l.F[1] = "key" + itoa(k)
 			l.F[2] = "s" + itoa(i%7)
@@ -206,8 +217,9 @@ var pins = []pin{
 		s := baseSpec("histo", lines, fld(1), fld(3))
 		s.N, s.Monotone = 5, false
 		s.CmdArgs = []string{"-n", "5"}
-		multi := oneFile("v1-batch200", "csv", n)
+		multi := oneFile("v1-batch200-stretched", "csv", n)
 		multi.Batch, multi.Single, multi.Workers = 200, false, 8
+		multi.Points = "batch.beforeSend=sleep:500us"
 		split := &Variant{Name: "v2-split-gz", Mode: "csv", Files: make([][]int, 4), Gz: []bool{true, false, true, true}, NoNL: make([]bool, 4), ZFlag: true, Workers: 4, Batch: 1000, Readers: 4}
 		for i := 0; i < n; i++ {
 			split.Files[(i/1000)%4] = append(split.Files[(i/1000)%4], i)
